@@ -361,9 +361,13 @@ def check_mpf2multiword(r, repo, rule="R13.5"):
                 elif elts is None or len(elts) != 4:
                     detail = None if elts is not None and len(elts) == 2 else f"`{norm_src(t)}` is not a (sign, man, exp, bc) tuple"
                 else:
-                    mdef = last_def(dotted(elts[1]), p.events, i) if dotted(elts[1]) else None
-                    xdef = last_def(dotted(elts[2]), p.events, i) if dotted(elts[2]) else None
-                    bdef = last_def(dotted(elts[3]), p.events, i) if dotted(elts[3]) else None
+                    def resolve(e_):
+                        # a local name stands for its last definition on the path; any other expression stands for itself, evaluated here
+                        if isinstance(e_, ast.Name):
+                            return last_def(e_.id, p.events, i)
+                        return (i, e_)
+
+                    mdef, xdef, bdef = resolve(elts[1]), resolve(elts[2]), resolve(elts[3])
                     if not (mdef and xdef and bdef):
                         raise AnalysisError("mpf2multiword: fields of a word are not locally defined names")
                     mv = mdef[1]
@@ -388,7 +392,8 @@ def check_mpf2multiword(r, repo, rule="R13.5"):
                         elif dotted(b_) == EXP:
                             xo = norm_src(a_)
                     bv = bdef[1]
-                    bl_ok = isinstance(bv, ast.Call) and isinstance(bv.func, ast.Attribute) and bv.func.attr == "bit_length" and dotted(bv.func.value) == dotted(elts[1]) and bdef[0] > mdef[0]
+                    bl_ok = isinstance(bv, ast.Call) and isinstance(bv.func, ast.Attribute) and bv.func.attr == "bit_length" and dotted(bv.func.value) == dotted(elts[1]) and bdef[0] >= mdef[0] \
+                        and (bdef[0] > mdef[0] or not isinstance(elts[3], ast.Name))
                     # the shift variable must not change between the slice, the exponent and the use
                     first = min(mdef[0], xdef[0])
                     changed = any(ev_.kind == "stmt" and any(dotted(tt) == o for tt, _ in _stores(ev_.node)) for ev_ in p.events[first + 1:i])
@@ -417,6 +422,15 @@ def check_mpf2multiword(r, repo, rule="R13.5"):
     if not ok:
         # any other shape that visibly sums every element once
         ok = len(loops) == 1 and norm_src(loops[0].iter) in (mw, f"reversed({mw})") and not idx
+    if not ok and not loops:
+        # sum(<f(w) for w in mw[:-1] (possibly reversed)>, <f(mw[-1])>)  or  sum(f(w) for w in mw)
+        for c_ in ast.walk(g):
+            if isinstance(c_, ast.Call) and dotted(c_.func) == "sum" and c_.args and isinstance(c_.args[0], (ast.GeneratorExp, ast.ListComp)) and len(c_.args[0].generators) == 1:
+                it = norm_src(c_.args[0].generators[0].iter)
+                if len(c_.args) == 2 and it in (f"{mw}[:-1]", f"reversed({mw}[:-1])") and f"{mw}[-1]" in norm_src(c_.args[1]) and not c_.args[0].generators[0].ifs:
+                    ok = True
+                elif len(c_.args) == 1 and it in (mw, f"reversed({mw})") and not c_.args[0].generators[0].ifs:
+                    ok = True
     r.ob(rule, f"{REL}::multiword2mpf sums every word once", ok,
          f"indices {idx} over `{norm_src(loops[0].iter) if loops else None}`: not (last word) + (every other word once)", loc(REL, g))
 
